@@ -263,8 +263,9 @@ Theorem mm_erase_range_cases l first last ps :
   it_wf n first -> it_wf n last ->
   walk (mm_next l) (S n) first last = Some ps ->
   match mm_erase_range l first last with
-  | Throw => 2 <= length ps
-  | Done rest ret => exists i m, ps = seq i m /\ rest = erase_range i (i + m) l
+  | Throw => 2 <= length ps < n
+  | Done rest ret => exists i m, ps = seq i m /\ rest = erase_range i (i + m) l /\
+                     (m = 0 \/ m = 1 \/ (i = kstart l i /\ i + m = kend l i) \/ m = n)
   end.
 Proof.
   intros n Hf Hl W. unfold mm_erase_range.
@@ -276,6 +277,7 @@ Proof.
     simpl in Hf.
     destruct (walk_trav (mm_next l) n last Hl ltac:(intros; reflexivity) (S n) p ps Hf W) as [A B].
     pose proof (kend_bounds l p Hf) as KB.
+    assert (PL : pos_of n last <= n) by (destruct last; simpl in Hl |- *; lia).
     rewrite (it_eq_pos n) by (simpl; auto). simpl pos_of.
     destruct (Nat.eqb_spec p (pos_of n last)) as [E|E].
     + exists p, 0. rewrite erase_nothing. subst ps. rewrite <- E, Nat.sub_diag. auto.
@@ -289,14 +291,16 @@ Proof.
         assert (Pk : pos_of n (mm_key_last l p true) = kend l p) by (unfold mm_key_last; destruct (Nat.ltb_spec (kend l p) (length l)); simpl; unfold n; lia).
         rewrite (it_eq_pos n last) by auto. rewrite Pk.
         destruct ((p =? kstart l p) && (pos_of n last =? kend l p)) eqn:C.
-        -- apply andb_true_iff in C. destruct C as [_ C]. apply Nat.eqb_eq in C.
-           exists p, (kend l p - p). subst ps. rewrite C. replace (p + (kend l p - p)) with (kend l p) by lia. auto.
+        -- apply andb_true_iff in C. destruct C as [C0 C]. apply Nat.eqb_eq in C. apply Nat.eqb_eq in C0.
+           exists p, (kend l p - p). subst ps. rewrite C. replace (p + (kend l p - p)) with (kend l p) by lia.
+           repeat split; auto; try (right; right; left; split; auto; lia).
         -- unfold mm_step3. rewrite (it_eq_pos n) by (simpl; auto; unfold us_begin; destruct (Nat.eqb_spec (length l) 0); simpl; auto; unfold n; lia).
            assert (Pb : pos_of n (us_begin (length l)) = 0) by (unfold us_begin; destruct (Nat.eqb_spec (length l) 0); simpl; unfold n; lia).
            rewrite Pb. simpl pos_of. destruct (Nat.eqb_spec p 0) as [E2|E2]; simpl.
            ++ destruct last as [|j tj]; simpl.
               ** exists 0, n. subst p ps. unfold pos_of. rewrite Nat.sub_0_r.
-                 change (erase_range 0 (0 + n) l) with (erase_range 0 (0 + length l) l). rewrite erase_all. auto.
+                 change (erase_range 0 (0 + n) l) with (erase_range 0 (0 + length l) l). rewrite erase_all.
+                 repeat split; auto; try (right; right; right; reflexivity).
               ** subst ps. rewrite seq_length. simpl in *. lia.
            ++ subst ps. rewrite seq_length. lia.
   - (* lookup-derived *)
@@ -315,7 +319,8 @@ Proof.
         -- unfold mm_key_last. destruct last as [|j tj].
            ++ simpl it_eq. rewrite andb_true_r. destruct Q3 as [[_ [t Q3]]|[Q3 _]]; try discriminate. subst q.
               destruct (Nat.eqb_spec p (kstart l p)).
-              ** exists p, (kend l p - p). replace (p + (kend l p - p)) with (kend l p) by lia. auto.
+              ** exists p, (kend l p - p). replace (p + (kend l p - p)) with (kend l p) by lia.
+                 repeat split; auto; try (right; right; left; split; auto; lia).
               ** unfold mm_step3. simpl it_eq. rewrite andb_true_r.
                  unfold us_begin. destruct (Nat.eqb_spec (length l) 0); [unfold n in *; lia|]. simpl.
                  destruct (Nat.eqb_spec p 0).
@@ -331,7 +336,7 @@ Proof.
            exists p, 1. subst ps. replace (kend l p - p) with 1 by lia. replace (p + 1) with (S p) by lia. auto.
         -- simpl it_eq. unfold mm_key_last. simpl it_eq. rewrite andb_false_r. unfold mm_step3. simpl it_eq. rewrite andb_false_r.
            destruct Q3 as [[Q3 [t Q4]]|[_ Q3]]; try discriminate. injection Q4 as <- <-.
-           simpl in Eq. apply Nat.eqb_neq in Eq. lia.
+           simpl in Eq. apply Nat.eqb_neq in Eq. unfold n in *. lia.
 Qed.
 
 (* both pre-fix mistakes have concrete witnesses *)
